@@ -1,12 +1,16 @@
 // C09 (socket layer) and C13 (poll_at) — raw::Socket never merges, splits, truncates, duplicates or
 // reorders datagrams.  Spliced into src/socket/raw.rs (private fields of `Socket` reachable).
 //
-// Same method as socket_udp.rs: the socket's PacketBuffers (<= 3 metadata slots, <= 56 payload bytes, metadata symbolic) are brought into a pre-state by a fixed script of public-API steps with symbolic arguments
-// (every step may be a no-op), shadowed by a ghost FIFO; then ONE operation under test; then the queue is
-// drained through the public API and compared with the ghost.  A raw datagram is a whole IP packet: here an
+// Same method as socket_udp.rs, with smaller bounds (ring wrap-around and padding records are explored by
+// socket_udp.rs and storage_packet.rs; whole IP packets make the payload ring six times larger here): the
+// socket's PacketBuffers (1..=2 metadata slots, 44 payload bytes) are brought into a pre-state by a fixed
+// script of two public-API steps with symbolic arguments (every step may be a no-op), shadowed by a ghost
+// FIFO; then ONE operation under test; then the queue is drained through the public API and compared with
+// the ghost.  A raw datagram is a whole IP packet: here an
 // IPv4 header (20 bytes, every field derived from two symbolic bytes `tag`, `k2` and a symbolic protocol)
 // followed by 0..=4 payload bytes pat(tag, i); also packets cut below 20 bytes, with another version nibble
 // or with fragmentation fields set, which `dispatch` must drop without emitting them.
+#[cfg(all(feature = "proto-ipv4", feature = "medium-ip"))]
 #[allow(dead_code, unused_imports, unused_variables, unused_mut, unused_assignments)]
 mod v_socket_raw {
     use super::*;
@@ -20,8 +24,8 @@ mod v_socket_raw {
     use crate::wire::Ipv6Address;
 
     const LOCAL: Ipv4Address = Ipv4Address::new(192, 168, 1, 1);
-    const MC: usize = 3; // metadata slots: 2..=3 symbolic
-    const PC: usize = 56; // payload ring (symbolic capacities 0..=8 are explored by socket_udp.rs and storage_packet.rs)
+    const MC: usize = 2; // metadata slots: 1..=2 symbolic
+    const PC: usize = 44; // payload ring: a 24-byte and a 20-byte packet, not two of 24 (symbolic capacities: socket_udp.rs)
     const H4: usize = 20; // IPv4 header
     const PD: usize = 4; // payload bytes: 0..=4
     const BL: usize = H4 + PD; // largest packet: 24 bytes
@@ -86,22 +90,18 @@ mod v_socket_raw {
         fn push(&mut self, g: G) {
             if !self.q[0].valid { self.q[0] = g; }
             else if !self.q[1].valid { self.q[1] = g; }
-            else if !self.q[2].valid { self.q[2] = g; }
             else { self.overflow = true; }
         }
         fn pop(&mut self) {
             if self.q[0].valid { self.popped = true; }
             self.q[0] = self.q[1];
-            self.q[1] = self.q[2];
-            self.q[2] = GE;
+            self.q[1] = GE;
         }
         fn count(&self) -> usize {
-            self.q[0].valid as usize + self.q[1].valid as usize + self.q[2].valid as usize
+            self.q[0].valid as usize + self.q[1].valid as usize
         }
         fn bytes(&self) -> usize {
-            (if self.q[0].valid { self.q[0].size } else { 0 })
-                + (if self.q[1].valid { self.q[1].size } else { 0 })
-                + (if self.q[2].valid { self.q[2].size } else { 0 })
+            (if self.q[0].valid { self.q[0].size } else { 0 }) + (if self.q[1].valid { self.q[1].size } else { 0 })
         }
     }
 
@@ -145,7 +145,7 @@ mod v_socket_raw {
 
     fn any_slots() -> usize {
         let v = any_le(MC);
-        kani::assume(v >= 2);
+        kani::assume(v >= 1);
         v
     }
 
@@ -282,13 +282,11 @@ mod v_socket_raw {
         };
     }
 
-    // @harness props=C09 cfg=KG tier=q to=900 mem=8 unwind=26 opts=nomem covers=4 funcs=raw::Socket::send_slice;raw::Socket::send;raw::Socket::send_with;raw::Socket::dispatch;Ipv4Packet::new_checked;Ipv4Repr::parse;PacketBuffer::enqueue;PacketBuffer::dequeue_with bounds=tx_metadata_slots_2..=3;_payload_ring_56_bytes;_pre-state_=_send,_send_with,_dispatch,_dispatch_(each_may_be_a_no-op);_packets_of_1..=24_bytes_(IPv4_header_without_options_+_0..=4_payload_bytes,_or_malformed);_socket_bound_to_no/IPv4_version_and_no/any_protocol
+    // @harness props=C09 cfg=KG tier=q to=900 mem=8 unwind=26 opts=nomem covers=4 funcs=raw::Socket::send_slice;raw::Socket::send;raw::Socket::send_with;raw::Socket::dispatch;Ipv4Packet::new_checked;Ipv4Repr::parse;PacketBuffer::enqueue;PacketBuffer::dequeue_with bounds=tx_metadata_slots_1..=2;_payload_ring_44_bytes;_pre-state_=_send,_dispatch_(each_may_be_a_no-op);_packets_of_1..=24_bytes_(IPv4_header_without_options_+_0..=4_payload_bytes,_or_malformed);_socket_bound_to_no/IPv4_version_and_no/any_protocol
     #[kani::proof]
     pub(crate) fn raw_send() {
         tx_setup!(dev, iface, cx, s, g, proto);
         step_send(&mut s, &mut g, VIA_SEND);
-        step_send(&mut s, &mut g, VIA_WITH);
-        step_dispatch(&mut s, cx, &mut g, &proto);
         step_dispatch(&mut s, cx, &mut g, &proto);
         let before = g.count();
         let m = any_packet();
@@ -303,20 +301,18 @@ mod v_socket_raw {
                 assert!(!(before == 0 && m.size <= pcap), "prop:c09_raw_empty_tx_accepts_up_to_capacity");
             }
         }
-        kani::cover!(r.is_ok() && before == 2, "third datagram accepted");
-        kani::cover!(r.is_ok() && before == 1 && g.popped && s.send_queue() > g.bytes(), "accepted behind a padding record (ring wrapped)");
-        kani::cover!(r.is_err() && before >= 1 && before < mcap && m.size <= pcap, "refused: payload ring too full");
+        kani::cover!(r.is_ok() && before == 1 && m.size == BL, "second datagram accepted behind the first");
+        kani::cover!(r.is_ok() && before == 0 && g.popped, "accepted on a queue emptied by dispatch");
+        kani::cover!(r.is_err() && before == 1 && mcap == 2, "refused: payload ring too full");
         kani::cover!(r.is_err() && before == mcap, "refused: metadata slots full");
         drain_tx(&mut s, cx, &g, &proto);
     }
 
-    // @harness props=C09 cfg=KG tier=q to=900 mem=8 unwind=26 opts=nomem covers=3 funcs=raw::Socket::send_with;raw::Socket::send_slice;raw::Socket::dispatch;PacketBuffer::enqueue_with_infallible;PacketBuffer::dequeue_with bounds=tx_metadata_slots_2..=3;_payload_ring_56_bytes;_pre-state_=_send_slice,_send_with,_dispatch,_dispatch_(each_may_be_a_no-op);_max_size_1..=24,_written_packet_1..=max_size_bytes
+    // @harness props=C09 cfg=KG tier=q to=900 mem=8 unwind=26 opts=nomem covers=3 funcs=raw::Socket::send_with;raw::Socket::send_slice;raw::Socket::dispatch;PacketBuffer::enqueue_with_infallible;PacketBuffer::dequeue_with bounds=tx_metadata_slots_1..=2;_payload_ring_44_bytes;_pre-state_=_send_slice,_dispatch_(each_may_be_a_no-op);_max_size_1..=24,_written_packet_1..=max_size_bytes
     #[kani::proof]
     pub(crate) fn raw_send_with() {
         tx_setup!(dev, iface, cx, s, g, proto);
         step_send(&mut s, &mut g, VIA_SLICE);
-        step_send(&mut s, &mut g, VIA_WITH);
-        step_dispatch(&mut s, cx, &mut g, &proto);
         step_dispatch(&mut s, cx, &mut g, &proto);
         let before = g.count();
         let m = any_packet();
@@ -345,20 +341,18 @@ mod v_socket_raw {
                 assert!(!(before == 0 && max <= pcap), "prop:c09_raw_empty_tx_accepts_up_to_capacity");
             }
         }
-        kani::cover!(r.is_ok() && before == 2 && take < max, "third datagram accepted and shrunk");
+        kani::cover!(r.is_ok() && before == 1 && take < max, "second datagram accepted and shrunk");
         kani::cover!(r.is_ok() && before == 0 && g.popped, "accepted on a queue emptied by dispatch (read pointer moved)");
-        kani::cover!(r.is_err() && before >= 1 && before < mcap && max <= pcap, "refused: payload ring too full");
+        kani::cover!(r.is_err() && before == 1 && mcap == 2, "refused: payload ring too full");
         drain_tx(&mut s, cx, &g, &proto);
     }
 
-    // @harness props=C09 cfg=KG tier=q to=900 mem=8 unwind=26 opts=nomem covers=4 funcs=raw::Socket::dispatch;raw::Socket::send_slice;raw::Socket::send_with;Ipv4Packet::new_checked;Ipv4Repr::parse;PacketBuffer::dequeue_with bounds=tx_metadata_slots_2..=3;_payload_ring_56_bytes;_pre-state_=_send_slice,_send_with,_dispatch,_send_slice_(each_may_be_a_no-op);_emit_returns_Ok_or_Err;_packets_of_1..=24_bytes_(well-formed_IPv4_or_malformed)
+    // @harness props=C09 cfg=KG tier=q to=900 mem=8 unwind=26 opts=nomem covers=4 funcs=raw::Socket::dispatch;raw::Socket::send_slice;raw::Socket::send_with;Ipv4Packet::new_checked;Ipv4Repr::parse;PacketBuffer::dequeue_with bounds=tx_metadata_slots_1..=2;_payload_ring_44_bytes;_pre-state_=_send_slice,_send_with_(each_may_be_a_no-op);_emit_returns_Ok_or_Err;_packets_of_1..=24_bytes_(well-formed_IPv4_or_malformed)
     #[kani::proof]
     pub(crate) fn raw_dispatch() {
         tx_setup!(dev, iface, cx, s, g, proto);
         step_send(&mut s, &mut g, VIA_SLICE);
         step_send(&mut s, &mut g, VIA_WITH);
-        step_dispatch(&mut s, cx, &mut g, &proto);
-        step_send(&mut s, &mut g, VIA_SLICE);
         let before = g.count();
         let head = g.q[0];
         let emit_ok: bool = kani::any();
@@ -377,14 +371,14 @@ mod v_socket_raw {
             assert!(!o.seen && r.is_ok(), "prop:c09_raw_tx_no_extra_datagram");
             g.pop();
         }
-        kani::cover!(em && !emit_ok && before >= 2, "emit Err path taken with two or more queued");
-        kani::cover!(em && emit_ok && before == 3, "emit Ok pops the head, two remain");
-        kani::cover!(em && emit_ok && s.send_queue() > g.bytes(), "head popped in front of a padding record");
+        kani::cover!(em && !emit_ok && before == 2, "emit Err path taken with two queued");
+        kani::cover!(em && emit_ok && before == 2 && head.size == BL, "emit Ok pops the head, one remains");
+        kani::cover!(head.valid && !head.good() && before == 2, "malformed head dropped, one remains");
         kani::cover!(head.valid && head.good() && !em && before == 2, "packet of another protocol dropped, one remains");
         drain_tx(&mut s, cx, &g, &proto);
     }
 
-    // @harness props=C09,C13 cfg=KG tier=q to=900 mem=8 unwind=26 opts=nomem covers=3 funcs=raw::Socket::poll_at;raw::Socket::send_slice;raw::Socket::send_with;raw::Socket::dispatch bounds=tx_metadata_slots_2..=3;_payload_ring_56_bytes;_script_send_slice,_send_with,_dispatch,_send_slice,_dispatch,_dispatch_(each_may_be_a_no-op);_poll_at_probed_after_every_step
+    // @harness props=C09,C13 cfg=KG tier=q to=900 mem=8 unwind=26 opts=nomem covers=3 funcs=raw::Socket::poll_at;raw::Socket::send_slice;raw::Socket::send_with;raw::Socket::dispatch bounds=tx_metadata_slots_1..=2;_payload_ring_44_bytes;_script_send_slice,_send_with,_dispatch,_send_slice,_dispatch,_dispatch_(each_may_be_a_no-op);_poll_at_probed_after_every_step
     #[kani::proof]
     pub(crate) fn raw_poll_at() {
         tx_setup!(dev, iface, cx, s, g, proto);
@@ -524,13 +518,11 @@ mod v_socket_raw {
         };
     }
 
-    // @harness props=C09 cfg=KG tier=q to=900 mem=8 unwind=26 opts=nomem covers=4 funcs=raw::Socket::process;raw::Socket::accepts;raw::Socket::recv;Ipv4Repr::emit;PacketBuffer::enqueue;PacketBuffer::dequeue bounds=rx_metadata_slots_2..=3;_payload_ring_56_bytes;_pre-state_=_process,_process,_recv,_recv_(each_may_be_a_no-op);_IPv4_packets_with_0..=4_payload_bytes,_any_protocol_the_socket_accepts
+    // @harness props=C09 cfg=KG tier=q to=900 mem=8 unwind=26 opts=nomem covers=4 funcs=raw::Socket::process;raw::Socket::accepts;raw::Socket::recv;Ipv4Repr::emit;PacketBuffer::enqueue;PacketBuffer::dequeue bounds=rx_metadata_slots_1..=2;_payload_ring_44_bytes;_pre-state_=_process,_recv_(each_may_be_a_no-op);_IPv4_packets_with_0..=4_payload_bytes,_any_protocol_the_socket_accepts
     #[kani::proof]
     pub(crate) fn raw_process_recv() {
         rx_setup!(dev, iface, cx, s, g, proto);
         step_process(&mut s, cx, &mut g, &proto);
-        step_process(&mut s, cx, &mut g, &proto);
-        step_recv(&mut s, &mut g);
         step_recv(&mut s, &mut g);
         let before = g.count();
         let mut m = any_rx_packet(&proto);
@@ -547,19 +539,17 @@ mod v_socket_raw {
         } else {
             assert!(before < mcap && m.size <= pcap, "prop:c09_raw_rx_delivery_within_capacity");
         }
-        kani::cover!(delivered && before == 2, "third datagram delivered");
-        kani::cover!(delivered && before == 1 && g.popped && bytes_after > g.bytes(), "delivered behind a padding record (ring wrapped)");
-        kani::cover!(!delivered && before >= 1 && before < mcap && m.size <= pcap, "dropped whole: payload ring too full");
+        kani::cover!(delivered && before == 1, "second datagram delivered behind the first");
+        kani::cover!(delivered && before == 0 && g.popped, "delivered into a queue emptied by recv");
+        kani::cover!(!delivered && before == 1 && mcap == 2, "dropped whole: payload ring too full");
         kani::cover!(!delivered && before == mcap, "dropped whole: metadata slots full");
     }
 
-    // @harness props=C09 cfg=KG tier=q to=900 mem=8 unwind=26 opts=nomem covers=3 funcs=raw::Socket::recv_slice;raw::Socket::recv;raw::Socket::process bounds=rx_metadata_slots_2..=3;_payload_ring_56_bytes;_pre-state_=_process,_process,_recv,_process_(each_may_be_a_no-op);_user_buffer_0..=24_bytes
+    // @harness props=C09 cfg=KG tier=q to=900 mem=8 unwind=26 opts=nomem covers=3 funcs=raw::Socket::recv_slice;raw::Socket::recv;raw::Socket::process bounds=rx_metadata_slots_1..=2;_payload_ring_44_bytes;_pre-state_=_process,_process_(each_may_be_a_no-op);_user_buffer_0..=24_bytes
     #[kani::proof]
     pub(crate) fn raw_recv_truncated() {
         rx_setup!(dev, iface, cx, s, g, proto);
         step_process(&mut s, cx, &mut g, &proto);
-        step_process(&mut s, cx, &mut g, &proto);
-        step_recv(&mut s, &mut g);
         step_process(&mut s, cx, &mut g, &proto);
         let head = g.q[0];
         let ulen = any_le(BL);
@@ -585,13 +575,11 @@ mod v_socket_raw {
         drain_rx(&mut s, &g);
     }
 
-    // @harness props=C09 cfg=KG tier=q to=900 mem=8 unwind=26 opts=nomem covers=3 funcs=raw::Socket::peek;raw::Socket::peek_slice;raw::Socket::recv;PacketBuffer::peek bounds=rx_metadata_slots_2..=3;_payload_ring_56_bytes;_pre-state_=_process,_process,_recv,_process_(each_may_be_a_no-op);_user_buffer_0..=24_bytes
+    // @harness props=C09 cfg=KG tier=q to=900 mem=8 unwind=26 opts=nomem covers=3 funcs=raw::Socket::peek;raw::Socket::peek_slice;raw::Socket::recv;PacketBuffer::peek bounds=rx_metadata_slots_1..=2;_payload_ring_44_bytes;_pre-state_=_process,_process_(each_may_be_a_no-op);_user_buffer_0..=24_bytes
     #[kani::proof]
     pub(crate) fn raw_peek() {
         rx_setup!(dev, iface, cx, s, g, proto);
         step_process(&mut s, cx, &mut g, &proto);
-        step_process(&mut s, cx, &mut g, &proto);
-        step_recv(&mut s, &mut g);
         step_process(&mut s, cx, &mut g, &proto);
         let head = g.q[0];
         match s.peek() {
@@ -622,7 +610,7 @@ mod v_socket_raw {
         }
         kani::cover!(trunc && g.count() >= 2, "peek_slice Truncated with two queued");
         kani::cover!(!trunc && head.valid && head.size >= 22, "peek_slice copied the head");
-        kani::cover!(head.valid && g.popped, "peek after an earlier recv");
+        kani::cover!(head.valid && g.count() == 2, "peek with two queued");
         // peeking consumes nothing, also when it reported Truncated
         drain_rx(&mut s, &g);
     }
@@ -680,9 +668,13 @@ mod v_socket_raw {
     // documented on `send`: "If the buffer is filled in a way that does not match the socket's IP version or
     // protocol, the packet will be silently dropped."
     // @harness props=C09 cfg=KG tier=q to=600 mem=8 unwind=26 opts=nomem covers=1 funcs=raw::Socket::send_slice;raw::Socket::dispatch bounds=socket_bound_to_IPv6;_one_well-formed_IPv4_packet_of_20..=24_bytes
-    #[cfg(feature = "proto-ipv6")]
     #[kani::proof]
     pub(crate) fn raw_version_filter() {
+        #[cfg(feature = "proto-ipv6")]
+        raw_version_filter_body();
+    }
+    #[cfg(feature = "proto-ipv6")]
+    fn raw_version_filter_body() {
         env!(dev, iface, cx);
         sock!(s, Some(IpVersion::Ipv6), None, 1, 0, 1, BL);
         let mut m = any_packet();
@@ -728,4 +720,15 @@ mod v_socket_raw {
         g.pop();
         drain_tx(&mut s, cx, &g, &proto);
     }
+}
+
+// Configurations without IPv4 or without medium-ip (this file is spliced into every configuration of a
+// run): the harnesses above are not run there; the replay dispatcher only needs their names.
+#[cfg(not(all(feature = "proto-ipv4", feature = "medium-ip")))]
+#[allow(dead_code)]
+mod v_socket_raw {
+    macro_rules! stubs {
+        ($($n:ident)*) => { $(pub(crate) fn $n() {})* };
+    }
+    stubs!(raw_send raw_send_with raw_dispatch raw_poll_at raw_process_recv raw_recv_truncated raw_peek raw_accepts raw_version_filter raw_send_empty_datagram raw_must_fail);
 }
